@@ -45,7 +45,10 @@ func (p *Processor) NotifyRecharge(ueId string, rg int32) {
 	}
 
 	// If it is previosly set to debit mode due to quota exhausted, need to reverse to the reserve mode
+	ue.CULock.Lock()
 	ue.RatingType[rg] = charging_datatype.REQ_SUBTYPE_RESERVE
+	notifyUri := ue.NotifyUri
+	ue.CULock.Unlock()
 	reauthorizationDetails = append(reauthorizationDetails, models.ReauthorizationDetails{
 		RatingGroup: rg,
 	})
@@ -54,7 +57,7 @@ func (p *Processor) NotifyRecharge(ueId string, rg int32) {
 		ReauthorizationDetails: reauthorizationDetails,
 	}
 
-	p.SendChargingNotification(ue.NotifyUri, notifyRequest)
+	p.SendChargingNotification(notifyUri, notifyRequest)
 }
 
 func (p *Processor) SendChargingNotification(notifyUri string, notifyRequest models.ChargingNotifyRequest) {
